@@ -7,6 +7,7 @@
 (* BBEval, checks the kind rules as invariants and prints tree + value for replay.           *)
 EXTENDS BBEval, TLC, Json
 CONSTANTS K, FnMenu
+Lenient == FALSE       \* cfg: StrictDomains <- Lenient (values only: the harness evaluator decides the domains of inexact arguments)
 
 Env == << [n |-> "x", v |-> Flt(3, 4)], [n |-> "n", v |-> IntV(5)], [n |-> "z", v |-> Num("complex", <<1, 2>>, <<-1, 1>>)],
           [n |-> "A", v |-> Arr("int", << <<IntV(7), IntV(4)>>, <<IntV(1), IntV(6)>> >>)],
@@ -39,15 +40,20 @@ All == E0 \cup (IF K >= 1 THEN E1 ELSE {}) \cup (IF K >= 2 THEN E2 ELSE {}) \cup
 Env2 == << [n |-> "x", v |-> Flt(3, 4)], [n |-> "n", v |-> IntV(5)], [n |-> "z", v |-> Num("complex", <<1, 2>>, <<-1, 1>>)],
            [n |-> "A", v |-> Arr("int", << <<IntV(9), IntV(8), IntV(3), IntV(6)>> >>)],
            [n |-> "B", v |-> Arr("float", << <<Flt(1, 2)>>, <<Flt(5, 4)>>, <<Flt(4, 1)>> >>)] >>
+\* third environment: the arrays were indexed and then re-bound through array-valued expression variables
+\* ("int A = A*A-A", "float B = B*B": element by element)
+Env3 == << [n |-> "x", v |-> Flt(3, 4)], [n |-> "n", v |-> IntV(5)], [n |-> "z", v |-> Num("complex", <<1, 2>>, <<-1, 1>>)],
+           [n |-> "A", v |-> Arith("-", Arith("*", Get(Env, "A"), Get(Env, "A")), Get(Env, "A"))],
+           [n |-> "B", v |-> Arith("*", Get(Env, "B"), Get(Env, "B"))] >>
 RECURSIVE HasIdx(_)
 HasIdx(x) == CASE x.t = "idx" -> TRUE
                [] x.t = "bin" -> HasIdx(x.l) \/ HasIdx(x.r)
                [] x.t \in {"neg", "pos", "brk", "fn"} -> HasIdx(x.a)
                [] OTHER -> FALSE
 VARIABLES e, envsel, done
-Init == e \in All /\ done = FALSE /\ envsel \in (IF HasIdx(e) THEN {1, 2} ELSE {1})
+Init == e \in All /\ done = FALSE /\ envsel \in (IF HasIdx(e) THEN (IF e \in E0 \cup E1 THEN {1, 2, 3} ELSE {1, 2}) ELSE {1})
 Next == ~done /\ done' = TRUE /\ UNCHANGED <<e, envsel>>
-TheEnv == IF envsel = 1 THEN Env ELSE Env2
+TheEnv == CASE envsel = 1 -> Env [] envsel = 2 -> Env2 [] envsel = 3 -> Env3
 Val == Eval(e, TheEnv, {})
 
 \* ---- the property's kind rules, as invariants over every enumerated tree
